@@ -124,7 +124,9 @@ def report(rep, res, rule, extra=None):
     secs = cov.setdefault("sections", {})
     for name in res["section_order"]:
         secs[name] = res["sections"][name]
-    cov.setdefault("violating_cases", {}).update(res["sig_counts"])
+    vc = cov.setdefault("violating_cases", {})
+    for k, v in res["sig_counts"].items():
+        vc[k] = vc.get(k, 0) + v
     if res.get("stop_reason"):
         cov["stop_reason"] = res["stop_reason"]
     if extra:
